@@ -595,6 +595,36 @@ def _id_use_is_bookkeeping(fn, n, parents):
                     continue
                 return False
         return True
+    # id(x) as the key of a dict (comprehension, display, d[id(x)] = .., setdefault) whose keys never leave it: the dict is
+    # only read through .values() / membership / subscripts / len -- insertion order, not the id values, decides
+    holder = None
+    if isinstance(p, (ast.DictComp, ast.Dict)) and (p.key is n if isinstance(p, ast.DictComp) else any(k is n for k in p.keys)):
+        a = parents.get(id(p))
+        if isinstance(a, ast.Assign) and len(a.targets) == 1 and isinstance(a.targets[0], ast.Name):
+            holder = a.targets[0].id
+        elif isinstance(a, ast.Call) and isinstance(a.func, ast.Attribute) and a.func.attr == "values":
+            return True
+        elif isinstance(a, ast.Attribute) and a.attr == "values":
+            return True
+    elif isinstance(p, ast.Subscript) and p.slice is n and isinstance(p.value, ast.Name):
+        holder = p.value.id
+    elif isinstance(p, ast.Call) and isinstance(p.func, ast.Attribute) and p.func.attr in ("setdefault", "get", "pop") \
+            and p.args and p.args[0] is n and isinstance(p.func.value, ast.Name):
+        holder = p.func.value.id
+    if holder is not None:
+        for x in ast.walk(fn.node):
+            if isinstance(x, ast.Name) and x.id == holder and isinstance(x.ctx, ast.Load):
+                px = parents.get(id(x))
+                if isinstance(px, ast.Attribute) and px.attr in ("values", "setdefault", "get", "pop", "clear", "__contains__", "__len__"):
+                    continue
+                if isinstance(px, ast.Subscript) and px.value is x:
+                    continue
+                if isinstance(px, ast.Compare) and x in px.comparators and all(isinstance(op, (ast.In, ast.NotIn)) for op in px.ops):
+                    continue
+                if isinstance(px, ast.Call) and isinstance(px.func, ast.Name) and px.func.id == "len":
+                    continue
+                return False
+        return True
     return False
 
 
